@@ -29,6 +29,36 @@ type Recorder struct {
 	confirmed map[string]string
 	extra     map[string]any
 	exhaust   *bool
+	// compact mode (huge enumerations, shards with disjoint key spaces): hashes are kept
+	// in a slice that is sorted and de-duplicated from time to time, and only their
+	// number is written out
+	compact  bool
+	chashes  []uint64
+	csorted  int
+	dupCount int64
+}
+
+// Compact switches to the memory-lean mode; keys of different shards must be disjoint.
+func (r *Recorder) Compact() {
+	r.mu.Lock()
+	r.compact = true
+	r.mu.Unlock()
+}
+
+func (r *Recorder) compactDedupe() {
+	sort.Slice(r.chashes, func(i, j int) bool { return r.chashes[i] < r.chashes[j] })
+	out := r.chashes[:0]
+	var prev uint64
+	for i, h := range r.chashes {
+		if i > 0 && h == prev {
+			r.dupCount++
+			continue
+		}
+		out = append(out, h)
+		prev = h
+	}
+	r.chashes = out
+	r.csorted = len(out)
 }
 
 var (
@@ -74,6 +104,19 @@ func (r *Recorder) Case(nontrivial bool, key string, labels ...string) {
 		return
 	}
 	h := hash64(key)
+	if r.compact {
+		r.chashes = append(r.chashes, h)
+		if len(r.chashes) > 2*r.csorted+1000000 {
+			r.compactDedupe()
+		}
+		if len(r.samples) < maxSamples {
+			if len(key) > maxSampleLen {
+				key = key[:maxSampleLen] + "…"
+			}
+			r.samples[h] = key
+		}
+		return
+	}
 	if _, ok := r.nontriv[h]; ok {
 		r.labels["duplicate-nontrivial"]++
 		return
@@ -143,6 +186,7 @@ type fragment struct {
 	Confirmed  map[string]string `json:"confirmed_known"`
 	Extra      map[string]any    `json:"extra,omitempty"`
 	Exhaustive *bool             `json:"exhaustive,omitempty"`
+	CountOnly  *int64            `json:"nontrivial_count_only,omitempty"`
 }
 
 func (r *Recorder) flush(dir string) error {
@@ -150,6 +194,12 @@ func (r *Recorder) flush(dir string) error {
 	defer r.mu.Unlock()
 	f := fragment{Property: r.Property, Name: r.Name, Rule: r.Rule, Evals: r.evals,
 		Labels: r.labels, Excluded: r.excluded, Confirmed: r.confirmed, Extra: r.extra, Exhaustive: r.exhaust}
+	if r.compact {
+		r.compactDedupe()
+		n := int64(len(r.chashes))
+		f.CountOnly = &n
+		f.Labels["duplicate-nontrivial"] += r.dupCount
+	}
 	for h := range r.nontriv {
 		f.Nontrivial = append(f.Nontrivial, h)
 	}
@@ -204,4 +254,18 @@ func Scale(quick, thorough int) int {
 		return thorough
 	}
 	return quick
+}
+
+// Shard returns this process's shard index and the number of shards (from the driver).
+func Shard() (int, int) {
+	var sh, n int
+	fmt.Sscanf(os.Getenv("VERIF_SHARD"), "%d", &sh)
+	fmt.Sscanf(os.Getenv("VERIF_SHARDS"), "%d", &n)
+	if n < 1 {
+		n = 1
+	}
+	if sh < 0 || sh >= n {
+		sh = 0
+	}
+	return sh, n
 }
